@@ -57,9 +57,19 @@ class DType:
         self.kind = kind
         self.label = label
 
+    KIND_CHARS = {"bool": "b", "int": "i", "uint": "u", "float": "f", "datetime": "M", "timedelta": "m",
+                  "string": "T", "fixedstr": "U", "bytes": "S", "object": "O"}
+
     def pyvc_getattr(self, it, name):
         if name == "na_object" and hasattr(self, "na_object"):
             return self.na_object
+        if name == "kind":
+            if isinstance(self.kind, str):
+                return self.KIND_CHARS[self.kind]
+            for k in KINDS:             # symbolic kind: one path per dtype kind
+                if it.ctx.branch(self.kind == KCODE[k]):
+                    return self.KIND_CHARS[k]
+            raise Unsupported("dtype kind out of range")
         raise Unsupported(f"dtype.{name}")
 
     def pyvc_compare(self, it, op, other, swapped):
@@ -350,7 +360,12 @@ def arr_setitem(it, a, idx, v):
         g = ghost(ctx)
         ctx.store[("ghost",)] = {**g, "input_writes": g["input_writes"] + (f"write into buffer of {root.owner}",)}
     if a.base is not None:
-        raise Unsupported("write through a view")
+        whole = a
+        while whole.base is not None:
+            if not (isinstance(whole.off, int) and whole.off == 0 and whole._len is whole.base.seq.len):
+                raise Unsupported("write through a partial view")
+            whole = whole.base
+        a = whole          # a whole-array view (e.g. .view(cls)): the write goes to the shared buffer
     s = a.seq
     if isinstance(idx, tuple) and len(idx) == 1:
         idx = idx[0]
@@ -563,7 +578,13 @@ def _m_repeat(it, args, kwargs):
     s = a.seq
     if isinstance(n, NDArr):
         raise Unsupported("repeat with per-element counts")
-    if conc(s.len) == 1 or it.ctx.valid(zint(s.len) == 1):
+    ln = conc(s.len)
+    one = (ln == 1) if isinstance(ln, int) else it.ctx.valid(zint(ln) == 1)
+    if not one:
+        if it.ctx.branch(zint(ln) == 0):
+            return a.fresh_like(Seq(0, s.at, s.sort))       # repeating nothing gives nothing
+        one = it.ctx.branch(zint(ln) == 1)
+    if one:
         e = s.at(0)
         nn = conc(z3.If(zint(n) >= 0, zint(n), 0))
         if not it.ctx.branch(zint(n) >= 0):
